@@ -94,6 +94,10 @@ impl Prop for C09 {
         vec![("multi-block-index-level", 40 * m), ("written-by-047", 1500 * m), ("codec=zstd", 150 * m), ("codec=lz4", 150 * m)]
     }
 
+    fn fuzz_targets(&self) -> Vec<(&'static str, u64)> {
+        vec![("fuzz_writer", 40_000)]
+    }
+
     fn run(&self, case: &Case, obs: &mut Obs) -> Check {
         let spec = &case.spec;
         let entries = spec.src.entries();
